@@ -3,7 +3,7 @@ import AioModel.C05
 /-!
 Driver commands of property C05.
 
-`run <keepaliveMs>,<lingerMs>,<readBufsize> <progs> <oracle> <event>…` → observations after every event,
+`run <keepaliveMs>,<lingerMs>,<readBufsize>,<canPause 0|1> <progs> <oracle> <event>…` → observations after every event,
 joined by ` | `.
 * progs: `;`-separated handler programs (`-` = none), ops separated by `.`:
   `S<ms>` `R` `P` (prepare+write) `Q` (prepare only) `W` and a final `ok|fc|E403|Ex|Et|Ec|none`
@@ -100,10 +100,10 @@ def runEvents : St → List String → List String → Option (List String)
 def handle : List String → String
   | "run" :: cfg :: progs :: oracle :: events =>
     match cfg.splitOn ",", parseProgs progs, parseOracle oracle with
-    | [ka, li, rb], some progs, some oracle =>
+    | [ka, li, rb, cp], some progs, some oracle =>
       match ka.toNat?, li.toNat?, rb.toNat? with
       | some ka, some li, some rb =>
-        let s := init { keepaliveMs := ka, lingerMs := li, readBuf := rb } progs oracle
+        let s := init { keepaliveMs := ka, lingerMs := li, readBuf := rb, canPause := cp == "1" } progs oracle
         match runEvents s events [] with
         | some outs => " | ".intercalate outs
         | none => "bad-op"
